@@ -601,6 +601,16 @@ func bufRangeCheck(r *vrt.Result) string {
 		}
 	}
 	availBefore, putBeforeRet := 0, 0
+	last := 3 // the last value ever put
+	if putCall[1] != 0 {
+		last = 1
+		if putRet[1] != 0 && putRet[1] < callAt {
+			availBefore = 1
+		}
+		if putCall[1] < retAt {
+			putBeforeRet = 1
+		}
+	}
 	if putRet[2] != 0 && putRet[2] < callAt {
 		availBefore = 2
 	}
@@ -614,7 +624,7 @@ func bufRangeCheck(r *vrt.Result) string {
 		putBeforeRet = 3
 	}
 	wantNext := func(n int) string {
-		if n > 3 {
+		if n > last {
 			if next != 0 {
 				return fmt.Sprintf("range-next: after Range (visited %v, %s) nothing should be left, next Get gave %d", visited, ret, next)
 			}
